@@ -25,7 +25,8 @@ PROPS = {
         ],
     },
     "C11": {
-        "lean_targets": ["Cql.Props.C11"],
+        "gens": ["constants", "gofn_time", "gofn_vint"],
+        "lean_targets": ["Cql.Props.C11", "Cql.Props.C13AsWritten", "Cql.Props.C03AsWritten"],
         "trusted_base": COMMON_TRUST + [HARNESS,
             "Cql/Value.lean, Cql/Vint.lean: hand-written model of the byte-level part of datacodec/*.go and primitive/vint.go (write*/read* of every "
             "scalar type, big.Int arithmetic of the varint codec, collection/map/tuple/UDT recursion incl. v2 vs v3+ lengths and null handling), "
@@ -42,7 +43,8 @@ PROPS = {
         ],
     },
     "C12": {
-        "lean_targets": ["Cql.Props.C12"],
+        "gens": ["constants", "gofn_time", "gofn_vint"],
+        "lean_targets": ["Cql.Props.C12", "Cql.Props.C13AsWritten", "Cql.Props.C03AsWritten"],
         "trusted_base": COMMON_TRUST + [HARNESS,
             "Cql/Value.lean, Cql/Vint.lean: hand-written model of the byte-level part of datacodec/*.go and primitive/vint.go (write*/read* of every "
             "scalar type, big.Int arithmetic of the varint codec, collection/map/tuple/UDT recursion incl. v2 vs v3+ lengths and null handling), "
